@@ -3,7 +3,7 @@ use crate::{
     storage::{
         Allocatable, Identifiable,
         core::{buffer::MemBlock, traits::Buffer},
-        page::{BtreePage, OverflowPage, PageZero},
+        page::{BtreePage, OverflowPage, OverflowPageHeader, PageZero},
     },
     types::PageId,
 };
@@ -233,6 +233,10 @@ impl MemFrame {
                 let lock = Arc::try_unwrap(arc.inner)
                     .expect("Cannot dealloc: other references to this page exist");
                 let mut page = lock.into_inner();
+                // A freed page starts with a fresh header, as on the B-tree branch: a stale `next`
+                // would make the free list run on into the rest of the page's old overflow chain.
+                let (id, size) = (page.id(), page.size());
+                *page.metadata_mut() = <OverflowPageHeader as Allocatable>::alloc(id, size);
                 page.data_mut().fill(0);
                 Self::from(Frame::new(page))
             }
